@@ -211,7 +211,9 @@ def engine_replay(cfg, tier, viol, workdir):
     vf = os.path.join(workdir, "viol.json")
     json.dump(viol, open(vf, "w"))
     out = os.path.join(workdir, "replay_out.json")
-    p = run_gosym(dict(cfg, entry=viol["entry"].rsplit(".", 1)[1]), tier, out, ["-replay", vf, "-workers", "1"])
+    c2 = dict(cfg, entry=viol["entry"].rsplit(".", 1)[1])
+    c2[tier] = dict(cfg.get(tier, {}), **{k: v for k, v in (viol.get("_run") or {}).items() if k != "entry"})
+    p = run_gosym(c2, tier, out, ["-replay", vf, "-workers", "1"])
     if p.returncode != 0 or not os.path.exists(out):
         return "error", p.stderr[-2000:]
     res = json.load(open(out))
@@ -265,6 +267,9 @@ def main():
             problems.append("gosym failed (exit %d): %s" % (p.returncode, p.stderr[-1500:]))
             continue
         r1 = json.load(open(of))
+        for e1 in r1["entries"]:
+            for v1 in e1["violations"]:
+                v1["_run"] = rcfg  # replay under the settings (schedule exploration, deviation bound) it was found with
         res["entries"] += r1["entries"]
         res["load_seconds"] += r1.get("load_seconds", 0)
         res["solver"] = r1.get("solver")
